@@ -45,6 +45,118 @@ FIXED = [
 ]
 
 
+# ---------------------------------------------------------------- residue across SEQUENTIAL calls of one function
+# Functions whose locals are READ BEFORE they are (conditionally) written: a local that survived an earlier call of the
+# same function would be seen by a later one, although it stays invisible from the caller.
+
+def _v(n):
+    return ("var", n)
+
+
+def _n(x):
+    return ("num", x)
+
+
+def residue_function(rng, k, made):
+    """(name, params, body, local names, recursive?) of one function of the family; made: earlier functions (name, arity, recursive)"""
+    name = "R%d" % k
+    a, b, t, u, x = "a%d" % k, "b%d" % k, "t%d" % k, "u%d" % k, "x%d" % k
+    thr = rng.randint(1, 5)
+    kind = rng.choice(["condset", "condset", "accum", "count", "loopvar", "early", "rec", "rec2", "caller", "param", "matchname", "forvar", "arrlocal"])
+    if kind == "caller" and not made:
+        kind = "condset"
+    val = rng.choice([("str", "big"), ("bin", "*", _v(a), _n(10)), _n(77), ("arr", [_v(a), _n(1)])])
+    if kind == "condset":
+        body = [("if", ("bin", rng.choice([">", "<", "=="]), _v(a), _n(thr)), [("assign", t, val)], None), ("return", _v(t))]
+        return name, [a], body, [t], False
+    if kind == "accum":
+        body = [("assign", t, ("bin", "+", _v(t), _v(a))), ("return", _v(t))]
+        if rng.random() < 0.5:
+            body.insert(0, ("if", ("bin", "==", _v(a), _n(thr)), [("return", _n(-1))], None))
+        return name, [a], body, [t], False
+    if kind == "count":
+        body = [("forin", x, ("arr", [_v(a), _n(1), _n(2)][:rng.randint(1, 3)]), [("incr", t)]), ("return", _v(t))]
+        return name, [a], body, [t, x], False
+    if kind == "loopvar":
+        body = [("assign", u, _v(x)), ("forin", x, ("arr", [_v(a), _n(5)]), [("assign", "g0", ("bin", "+", _v("g0"), _n(1)))]), ("return", _v(u))]
+        return name, [a], body, [u, x], False
+    if kind == "forvar":
+        body = [("assign", u, _v(x)), ("for", x, rng.randint(1, 3), [("assign", "g1", ("bin", "+", _v("g1"), _v(x)))]), ("return", _v(u))]
+        return name, [a], body, [u, x], False
+    if kind == "early":
+        body = [("if", ("bin", "==", _v(a), _n(thr)), [("assign", t, _n(5)), ("return", _n(0))], None), ("return", _v(t))]
+        return name, [a], body, [t], False
+    if kind == "rec":
+        # the local is created after the recursive call returned: every level makes (and loses) its own
+        body = [("if", ("bin", ">", _v(a), _n(0)), [("expr", ("call", name, [("bin", "-", _v(a), _n(1))]))], None),
+                ("assign", t, ("bin", "+", _v(t), _n(1))), ("return", _v(t))]
+        return name, [a], body, [t], True
+    if kind == "rec2":
+        # an early return at the bottom of the recursion; the outermost level conditionally sets the local
+        body = [("if", ("bin", "<=", _v(a), _n(0)), [("return", _v(t))], None),
+                ("assign", u, ("call", name, [("bin", "-", _v(a), _n(1))])),
+                ("if", ("bin", ">", _v(a), _n(thr)), [("assign", t, ("str", "deep"))], None),
+                ("return", _v(u))]
+        return name, [a], body, [t, u], True
+    if kind == "caller":
+        f, ar, rec = rng.choice(made)
+        c1 = ("call", f, [_v(a)][:ar])
+        c2 = ("call", f, [_n(rng.randint(0, 2))][:ar])
+        body = [("print", [("str", name), c1, c2]), ("if", ("bin", ">", _v(a), _n(thr)), [("assign", t, _n(1))], None), ("return", _v(t))]
+        return name, [a], body, [t], rec
+    if kind == "param":
+        # a missing argument is null in every call, whatever an earlier call stored in the parameter
+        body = [("if", ("bin", ">", _v(a), _n(thr)), [("assign", b, _n(7)), ("assign", t, _v(b))], None), ("return", ("arr", [_v(b), _v(t)]))]
+        return name, [a, b], body, [t], False
+    if kind == "arrlocal":
+        body = [("if", ("bin", ">", _v(a), _n(thr)), [("assign", t, ("arr", [_v(a), _n(2)]))], None),
+                ("if", ("bin", "==", _v(t), ("null",)), [("return", ("str", "none"))], None), ("return", _v(t))]
+        return name, [a], body, [t], False
+    # matchname: a name bound by a pattern inside the call, read at the start of the next call
+    m = "m%d" % k
+    body = [("assign", u, _v(m)), ("expr", ("match", _v(a), [([("plit", float(thr))], "block", [("return", ("str", "lit"))]),
+                                                             ([("pname", m)], "block", [("assign", "g2", _v(m))])])), ("return", _v(u))]
+    return name, [a], body, [u, m], False
+
+
+def residue_program(rng):
+    funcs, made, names = [], [], []
+    for k in range(rng.randint(1, 3)):
+        name, params, body, locs, rec = residue_function(rng, k, made)
+        funcs.append((name, params, body))
+        made.append((name, 1, rec))
+        names += params + locs
+
+    def call(arg):
+        f, ar, rec = rng.choice(made)
+        if rec and arg[0] == "num":
+            arg = _n(min(arg[1], 6))
+        return ("call", f, [arg])
+
+    def calls(mk):
+        out = []
+        for _ in range(rng.randint(2, 6)):
+            c = call(mk())
+            out.append(("print", [("str", c[1]), c]) if rng.random() < 0.8 else ("assign", "g3", c))
+            if rng.random() < 0.2:
+                out.append(("expr", ("call", "pr_", [])))      # a probe from the top level would CREATE the names there as globals
+        return out
+    begin = [("assign", g, _n(i + 1)) for i, g in enumerate(callref.GLOBALS)]
+    begin += calls(lambda: _n(rng.randint(0, 8)))
+    rules = []
+    if rng.random() < 0.7:
+        body = calls(lambda: rng.choice([("dollar",), ("dollar",), _n(rng.randint(0, 8))]))
+        rules.append((None if rng.random() < 0.7 else ("bin", "<", ("dollar",), _n(6)), body))
+    end = calls(lambda: _n(rng.randint(0, 8)))
+    names = sorted(set(names))
+    funcs.append(("pr_", [], [("print", [("str", "P")] + [_v(x) for x in names])]))
+    end.append(("expr", ("call", "pr_", [])))
+    end.append(("print", [("str", "D")] + [_v(x) for x in names] + [_v(g) for g in callref.GLOBALS]))
+    if rng.random() < 0.5:
+        rng.shuffle(funcs)
+    return {"funcs": funcs, "begin": begin, "rules": rules, "end": end}
+
+
 class C08(Check):
     pid = "C08"
     props = ["C08_frames.v"]
@@ -52,8 +164,10 @@ class C08(Check):
             "on globals, with next/exit at some nesting, returning from inside loops / conditionals / match blocks, storing "
             "through an array parameter; calls in operand, argument, index, condition, pattern and match-subject positions; too "
             "few / too many arguments; matches with expression and block bodies) printing globals before and after calls and "
-            "probing parameter, local and pattern-bound names afterwards; expectation by an independent interpreter of the "
-            "family; long histories: the same rule over n and n+5000 elements with n above the generated call depth limit; "
+            "probing parameter, local and pattern-bound names afterwards; functions whose locals are read before they are "
+            "(conditionally) written -- set under a condition, accumulated, counted in a loop, loop variables, after recursion, "
+            "after an early return -- called several times in a row from BEGIN, rules, END and other functions; expectation by "
+            "an independent interpreter of the family; long histories: the same rule over n and n+5000 elements with n above the generated call depth limit; "
             "recursion well inside and far beyond the limit after thousands of completed calls.  non-trivial = at least one "
             "call or match completes before another begins")
 
@@ -90,6 +204,23 @@ class C08(Check):
             inp = json.dumps(doc)
             cases.append(Case(cid, simple_run(cid, prog, [inp]), {"prog": prog, "input": inp, "outcome": outcome, "stdout": out},
                               it.history))
+        # ---- residue across sequential calls of the same function
+        n = 300 if tier == "quick" else 6000
+        k = 0
+        while k < n:
+            p = residue_program(rng)
+            doc = [float(rng.randint(0, 8)) for _ in range(rng.randint(0, 6))]
+            it = callref.Interp(p, L, max_steps=60000)
+            try:
+                outcome, out = it.run(doc)
+            except (callref.TooDeep, RecursionError):
+                continue
+            cid = "q%d" % k
+            k += 1
+            prog = callref.src_program(p)
+            inp = json.dumps(doc)
+            cases.append(Case(cid, simple_run(cid, prog, [inp]), {"prog": prog, "input": inp, "outcome": outcome, "stdout": out,
+                                                                  "what": "locals read before they are written, sequential calls"}, True))
         # ---- long histories: n and n + 5000 elements, n above the limit
         npairs = 3 if tier == "quick" else 60
         k = 0
